@@ -36,7 +36,9 @@ def replay_roundtrip(lengths, blocked, api, records=None):
         return True, 'unblocked file differs from [len32 body]* 0', 'C03/layout'
     try:
         if api in ('class', 'with-close'):
-            got = list(mciipm.VbsReader(io.BytesIO(data), blocked=blocked))
+            rd = mciipm.VbsReader(io.BytesIO(data), blocked=blocked)
+            got = [next(rd)] if len(recs) >= 2 else []
+            got += list(rd)
         else:
             got = mciipm.vbs_bytes_to_list(data, blocked=blocked)
     except mciipm.MciIpmDataError as e:
